@@ -16,7 +16,7 @@ var padPool = []string{"", "", "", "", " ", "\t", "\n", "\r", "\x00", "\x01", "\
 var restPool = []string{"//example.com/", "//example.org/a?b=c#d", "//example.org/ok/x", "alert(1)", "//user:pw@h:80/p", "a@b.c", "text/html,<script>alert(1)</script>", "image/png;base64,iVBORw0KGgo=",
 	"image/png;base64,iVBO\nRw0KGgo=", "image/gif;base64,R0lGODlh", "image/svg+xml;base64,PHN2Zz4=", "image/png;base64,iVBORw0KGgo=?x", "image/png;base64,iVBORw0KGgo=#f", "image/png;base64,@@@",
 	"/\\evil.com", "\\\\evil.com", "//[::1]/", "//é.com/é", "%zz", "", "x y", "x\ty", "//h/p?q=a b", "//h/%2f", "+123", "/ok/p", "//h/?a=1;b=2&<c>=3", "//h/?%zz", "//h:x/", "//h\x7f/"}
-var relPool = []string{"/a/b", "a/b", "../x", "//host/p", "#f", "?q", "a:b", "./a:b", "%6aavascript:alert(1)", "\\\\evil.com\\x", "/\\evil", "", ".", "a b", "a\tb", "é", "%zz", "//", "///x", "////x", ":x",
+var relPool = []string{"/%2Fevil.com\"", "/%2fevil.com/\u00e9", "/%2F%2Fx\"y", "%2F/x'", "/a/..%2F%2Fb<", "/a/b", "a/b", "../x", "//host/p", "#f", "?q", "a:b", "./a:b", "%6aavascript:alert(1)", "\\\\evil.com\\x", "/\\evil", "", ".", "a b", "a\tb", "é", "%zz", "//", "///x", "////x", ":x",
 	"/:x", "/ok/x", "?a=<b>&c=\"d\"", "#\"><x>", "a\x00b", "a\x7fb", "/a?b=c;d=e"}
 
 func genURL(t *rapid.T) string { return genURLFor(t, nil) }
